@@ -3,6 +3,7 @@ package props
 import (
 	"bytes"
 	"context"
+	"errors"
 	"fmt"
 	"github.com/bytedance/gopkg/cloud/metainfo"
 	"runtime/debug"
@@ -1231,4 +1232,111 @@ func TestC10_ManyKeys(t *testing.T) {
 	b.Distinct, b.Nontrivial = b.Evals, b.Evals
 	rec.Merge(b)
 	rec.Sample(map[string]interface{}{"keys": total, "per_frame": per, "key_length": 12})
+}
+
+// countingWriter is a bufiox.Writer that stores nothing: regions of up to 64 bytes get memory of their own
+// (the encoder keeps some of them to fill in later), larger ones share one scratch buffer.
+type countingWriter struct {
+	n       int
+	scratch []byte
+}
+
+func (w *countingWriter) Malloc(n int) ([]byte, error) {
+	if n < 0 {
+		return nil, errors.New("verif: negative count")
+	}
+	w.n += n
+	if n <= 64 {
+		return make([]byte, n), nil
+	}
+	if cap(w.scratch) < n {
+		w.scratch = make([]byte, n)
+	}
+	return w.scratch[:n], nil
+}
+func (w *countingWriter) WriteBinary(bs []byte) (int, error) { w.n += len(bs); return len(bs), nil }
+func (w *countingWriter) WrittenLen() int                    { return w.n }
+func (w *countingWriter) Flush() error                       { return nil }
+
+// OversizedInfoCase: info maps whose encoded size lies far beyond the 64 KiB header limit, chosen so that
+// the size is close to a multiple of 2^32.
+type OversizedInfoCase struct {
+	Entries int  `json:"entries"` // number of int-keyed entries (<= 65536, distinct keys)
+	ValLen  int  `json:"val_len"` // length of every value
+	Str     bool `json:"str,omitempty"`
+}
+
+func checkOversizedInfo(c OversizedInfoCase, cv *cov) *evid.Violation {
+	if c.Entries < 1 || c.Entries > 65536 || c.ValLen < 0 || c.ValLen > 65535 {
+		return nil
+	}
+	val := string(patternBytes(7, c.ValLen))
+	p := ttheader.EncodeParam{SeqID: 1}
+	size := int64(2)
+	if c.Str {
+		p.StrInfo = make(map[string]string, c.Entries)
+		for i := 0; i < c.Entries; i++ {
+			p.StrInfo[fmt.Sprintf("k%05d", i)] = val
+		}
+		size += 3 + int64(c.Entries)*int64(2+6+2+c.ValLen)
+	} else {
+		p.IntInfo = make(map[uint16]string, c.Entries)
+		for i := 0; i < c.Entries; i++ {
+			p.IntInfo[uint16(i)] = val
+		}
+		size += 3 + int64(c.Entries)*int64(2+2+c.ValLen)
+	}
+	if size <= 65536 {
+		return nil // not oversized: the round-trip check covers it
+	}
+	w := &countingWriter{}
+	var err error
+	if pn, st := evid.Safe(func() { _, err = ttheader.Encode(context.Background(), p, w) }); pn != nil {
+		return &evid.Violation{Msg: fmt.Sprintf("Encode panicked on %d entries with %d-byte values: %v", c.Entries, c.ValLen, pn), Stack: st}
+	}
+	cv.nontrivial = size >= 1<<32
+	cv.labelIf(size >= 1<<32, "info >= 2^32 bytes")
+	cv.labelIf(size < 1<<32, "64 KiB < info < 2^32 bytes")
+	if err == nil {
+		return evid.Failf("Encode returned no error for %d entries with %d-byte values: the header info needs %d bytes (%d modulo 2^32), the limit is 65536; %d bytes were written, no frame with a 16-bit size field can describe them", c.Entries, c.ValLen, size, size%(1<<32), w.n)
+	}
+	return nil
+}
+
+func init() { register("c06_oversized_info", checkOversizedInfo) }
+
+func TestC06_OversizedInfo(t *testing.T) {
+	rec := evid.New("C06", "c06_oversized_info", "enumeration: info maps of 65536 int entries (and 65536 string entries) whose values have the length that puts the total info size at 2^32 + r for several small r (the size looks legal modulo 2^32), plus sizes of 70000 bytes, 1 MiB and 2^31; Encode writes into a counting writer (nothing is stored) and must return an error; distinct by construction")
+	defer rec.Flush()
+	cases := []OversizedInfoCase{
+		{Entries: 65536, ValLen: 65532},            // 2^32 + 5
+		{Entries: 65536, ValLen: 65532, Str: true}, // far beyond, not near a multiple
+		{Entries: 65536, ValLen: 65526, Str: true}, // 2 + 3 + 65536*(10+65526) = 2^32 + 5
+		{Entries: 32768, ValLen: 65532},            // 2^31 + 5
+		{Entries: 1000, ValLen: 66},                // 70005
+		{Entries: 16, ValLen: 65535},               // about 1 MiB
+	}
+	if evid.Thorough() {
+		cases = append(cases, OversizedInfoCase{Entries: 65535, ValLen: 65535}, OversizedInfoCase{Entries: 65536, ValLen: 65533})
+	}
+	b := evid.NewBatch()
+	for _, c := range cases {
+		var cv cov
+		v := checkOversizedInfo(c, &cv)
+		b.Evals++
+		b.Distinct++
+		if cv.nontrivial {
+			b.Nontrivial++
+		}
+		for _, l := range cv.labels {
+			b.Labels[l]++
+		}
+		if v != nil {
+			failEnum(t, rec, "c06_oversized_info", c, v)
+			break
+		}
+	}
+	rec.Merge(b)
+	rec.Sample(OversizedInfoCase{Entries: 65536, ValLen: 65532})
+	rec.SetExhaustive()
 }
